@@ -32,6 +32,16 @@ BOUNDARY = {
 }
 
 
+# occurrences sent for a list-valued parameter (each inner list: the values of the successive occurrences of the key)
+SLICE_VALUES = {
+    "string": [["Lovelace, Ada"], ["a,b,c"], [","], ["x,"], ["a", "b"], ["a,b", "c"], ["a", "b,c", "d"], ["abc"],
+               ["a&b=c", "100%"], ["semi;colon"], ["a b", "a+b"], ["héllo ✓, wörld"], ["p|q"], ["a", "a"]],
+    "int": [["1,2"], ["1", "2"], ["1,2", "3"], ["3", "1,2"], ["1", "x"], ["-5"], ["7", "7", "7"], ["1 2"], ["1;2"], [","], ["1,"]],
+    "bool": [["true,false"], ["true", "false"], ["1", "0", "t"], ["true", "yes"], ["true,"]],
+}
+JSON_MEDIA_TYPES = ["application/json; charset=utf-8", "application/json;charset=UTF-8", "Application/JSON"]
+
+
 def coq_tparam(t):
     import re
     decl = re.sub(r"(Param|Response)\d+\w+\.", "", t["decl_type"])
@@ -128,6 +138,20 @@ def main():
                             "validator": None, "slice": False},
                            {"name": "b", "ctx": False, "loc": "body", "alias": None, "type": "Item", "pointer": ptr,
                             "validator": None if ptr else "required", "slice": False}]})
+        # list-valued query parameters (the only location where slices are accepted): one and two per method,
+        # every element type, with and without a wire name of their own, next to scalars; an optional (*[]T) one
+        def sp(n, ty, alias=None, ptr=False, loc="query", sl=True):
+            return {"name": n, "ctx": False, "loc": loc, "alias": alias, "type": ty, "pointer": ptr, "validator": None,
+                    "slice": sl}
+        for si, sps in enumerate([[sp("authors", "string", "author"), sp("years", "int", "year")],
+                                  [sp("flags", "bool"), sp("ids", "uint32", "id")],
+                                  [sp("notes", "string", "note", ptr=True), sp("big", "int64")],
+                                  [sp("tok", "string", "X-Tok", loc="header", sl=False), sp("tags", "string"),
+                                   sp("n", "int8", sl=False)],
+                                  [sp("small", "int8", "s"), sp("u", "uint")]]):
+            gc["methods"].append({
+                "name": "Sl%d" % si, "verb": "GET", "route": "/sl%d" % si, "hidden": False, "deprecated": False, "security": [],
+                "ret": "string", "errtype": "error", "response": None, "errors": [], "descr": "", "file": 0, "params": sps})
         projects.append(grp)
     moddir, results = R.generate_routes(PROP, projects)
 
@@ -202,6 +226,66 @@ def main():
                                           "method": m["name"], "label": "valid", "tags": {"values": values}, "request": rq,
                                           "script": {}, "engine": e})
     outs = h.run(reqs) if reqs else []
+    # ---- list-valued parameters: ONE element per occurrence of the wire name, each converted on its own; nothing
+    # inside an occurrence (comma, blank, semicolon, any URL-reserved character) separates elements
+    sreqs, smeta, shrows = [], [], []
+    for k, p in enumerate(chosen):
+        for c in p["controllers"]:
+            for m in c["methods"]:
+                params = m["params"]
+                real = [x for x in params if not x["ctx"]]
+                tmpl = C12.collapse(c["route"] + m["route"])
+                def vv(x):
+                    return {"Color": "red", "Shade": "dark", "Tone": "warm", "Level": "1"}.get(x["type"], C12.valid_value(x))
+                base = {x["name"]: ([vv(x)] * 2 if x.get("slice") else vv(x)) for x in real if x["loc"] != "body"}
+                for pi, prm in enumerate(params):
+                    if prm["ctx"] or not prm.get("slice") or prm["loc"] != "query" or prm["type"] not in COQ_PRIM:
+                        continue
+                    for vals in SLICE_VALUES.get(prm["type"], SLICE_VALUES["int"] if prm["type"] != "bool" else []):
+                        values = dict(base)
+                        values[prm["name"]] = list(vals)
+                        rq = C12.build_request(m["verb"], tmpl, params, values)
+                        for e in R.ENGINES:
+                            if not h.usable(k, e):
+                                continue
+                            sreqs.append(dict(rq, project=k, engine=e, script={}))
+                            smeta.append((k, c["name"], m["name"], e, pi, prm, list(vals)))
+                            shrows.append({"key": [k, c["name"], m["name"], pi, "slice", list(vals)], "project": k,
+                                           "controller": c["name"], "method": m["name"], "label": "valid",
+                                           "tags": {"values": values}, "request": rq, "script": {}, "engine": e})
+    souts = h.run(sreqs) if sreqs else []
+    srows = []
+    for i, ((k, cn, mn, e, pi, prm, vals), o) in enumerate(zip(smeta, souts)):
+        invoked = len(o["calls"]) == 1 and o["calls"][0]["method"] == mn
+        arg = o["calls"][0]["args"][pi] if invoked and pi < len(o["calls"][0]["args"]) else None
+        got = None
+        if isinstance(arg, list):
+            got = [arg_value(prm["type"], x) for x in arg]
+            got = None if any(g is None for g in got) else got
+        srows.append("(%d%%nat, %s, %s, %s, %d%%N, %s, %s)" % (
+            i, COQ_PRIM[prm["type"]], coq_list([coq_bytes(v) for v in vals]), coq_bool(invoked), o["status"],
+            "None" if got is None else "(Some %s)" % coq_list(got),
+            coq_bool(bool(prm["validator"]) and prm["validator"] != "required")))
+    sbad = []
+    for lo in range(0, len(srows), 800):
+        body = ("From Gleece Require Import Base.Bytes Model.Bind Model.SliceBind.\nFrom Coq Require Import String.\n"
+                "Definition cases : list (nat * prim * list str * bool * N * option (list value) * bool) := [\n" +
+                ";\n".join(srows[lo:lo + 800]) + "].\n"
+                "Definition bad := Eval vm_compute in map (fun c => let '(i, _, _, _, _, _, _) := c in i) "
+                "(filter (fun c => let '(_, ty, raws, invoked, status, got, has_rule) := c in "
+                "negb (prop_C05_slice_request ty raws invoked status got has_rule)) cases).\nPrint bad.\n")
+        out = run_coq_file(PROP, "slices_%d" % lo, body, timeout=900)
+        sbad += parse_nat_list(out, "bad")
+    for i in sbad[:2]:
+        k, cn, mn, e, pi, prm, vals = smeta[i]
+        res.violation({"kind": "property-fails-on-implementation", "engine": e, "input": chosen[k], "controller": cn, "method": mn,
+                       "parameter": prm, "sent_occurrences": vals,
+                       "request": {kk: sreqs[i][kk] for kk in ("method", "path", "query", "headers", "form", "body")},
+                       "observed": souts[i],
+                       "claim": "a list-valued query parameter reaches the method as ONE element per occurrence of its wire "
+                                "name, in order, each converted to the element type (a comma or any other reserved character "
+                                "inside an occurrence is part of that value); an occurrence that does not convert is answered "
+                                "422 without invoking the method"})
     # ---- body parameters: the request body must be ONE JSON document of the declared type
     breqs, bmeta, bhrows = [], [], []
     for k, p in enumerate(chosen):
@@ -214,8 +298,17 @@ def main():
                 base = {x["name"]: ([C12.valid_value(x)] * 2 if x.get("slice") else
                                     {"Color": "red", "Shade": "dark", "Tone": "warm", "Level": "1"}.get(x["type"], C12.valid_value(x)))
                         for x in params if not x["ctx"] and x["loc"] != "body"}
-                for b in ("valid", "missing", "malformed", "trailing", "twodocs", "whitespace"):
+                for b in ("valid", "missing", "malformed", "trailing", "twodocs", "whitespace", "unicode") + \
+                        tuple((bk, ct) for bk in ("valid", "unicode") for ct in JSON_MEDIA_TYPES):
+                    # a pair: the same valid document, labelled with the JSON media type the way clients label it
+                    # (a parameter after the type, another letter case): the label does not change what is carried
+                    ctype = None
+                    if isinstance(b, tuple):
+                        b, ctype = b
                     rq = C12.build_request(m["verb"], tmpl, params, base, body=b)
+                    if ctype:
+                        rq["headers"] = list(rq["headers"]) + [("Content-Type", ctype)]
+                        b = b + "+" + ctype
                     for e in R.ENGINES:
                         if not h.usable(k, e):
                             continue
@@ -226,7 +319,24 @@ def main():
                                        "script": {}, "engine": e})
     bouts = h.run(breqs) if breqs else []
     nbody = 0
-    for (k, cn, mn, e, b), o in zip(bmeta, bouts):
+    for bi_, ((k, cn, mn, e, b), o) in enumerate(zip(bmeta, bouts)):
+        if b.split("+")[0] in ("valid", "unicode"):
+            meth = [m_ for c_ in chosen[k]["controllers"] if c_["name"] == cn for m_ in c_["methods"] if m_["name"] == mn][0]
+            bpi = [j for j, x in enumerate(meth["params"]) if (not x["ctx"]) and x["loc"] == "body"][0]
+            sent = json.loads(breqs[bi_]["body"])
+            ok = len(o["calls"]) == 1 and o["calls"][0]["method"] == mn and bpi < len(o["calls"][0]["args"]) and \
+                handlermodel.canon_json(o["calls"][0]["args"][bpi]) == handlermodel.canon_json(sent) and 200 <= o["status"] < 300
+            if not ok:
+                nbody += 1
+                if nbody <= 2:
+                    res.violation({"kind": "property-fails-on-implementation", "engine": e, "input": chosen[k], "controller": cn,
+                                   "method": mn, "body_kind": b,
+                                   "request": {kk: breqs[bi_][kk] for kk in ("method", "path", "query", "headers", "form", "body")},
+                                   "observed": o,
+                                   "claim": "a request whose body is one JSON document of the declared type (every other "
+                                            "parameter valid) reaches the method with the decoded document, whatever "
+                                            "parameters or letter case its JSON media type label carries"})
+            continue
         if b in ("malformed", "trailing", "twodocs", "whitespace") and (o["calls"] or o["status"] != 422):
             nbody += 1
             if nbody <= 2:
@@ -304,7 +414,10 @@ def main():
         r_["raw"] = o_
     for r_, o_ in zip(bhrows, bouts):
         r_["raw"] = o_
-    hstats = handlermodel.handler_leg(res, PROP, chosen, hrows + bhrows)
+    for r_, o_ in zip(shrows, souts):
+        r_["raw"] = o_
+    hstats = handlermodel.handler_leg(res, PROP, chosen, hrows + bhrows + shrows)
+    hstats["slice_requests_x_engines"] = len(sreqs)
     hstats["body_requests_x_engines"] = len(breqs)
     h.cleanup()
     res.coverage["obligations"] = res.coverage.get("obligations", 0) + len(meta)
@@ -321,13 +434,19 @@ def main():
                 "location x pointer-ness) translated by go/ast; router_params_ok evaluated by vm_compute; (2) compiled routers: per "
                 "parameter, values at the boundaries of the declared type, unicode and URL-reserved strings, absence; oracle "
                 "prop_C05_request (which runs the model conversion Bind.convert on the sent text); distinct = distinct "
-                "(type, location, pointer-ness, sent value)",
+                "(type, location, pointer-ness, sent value); list-valued query parameters: occurrences with commas / reserved "
+                "characters inside, several occurrences, unconvertible elements, oracle prop_C05_slice_request (one element per "
+                "occurrence); bodies: one JSON document (422 otherwise), the valid document under JSON media types with "
+                "parameters / other letter case must reach the method; every request also against Handler.handle",
         "samples": [{"parameter": rmeta[0][5], "sent": rmeta[0][7], "engine": rmeta[0][3], "status": outs[0]["status"],
                      "calls": outs[0]["calls"]}] if reqs else [],
         "traces_validated_against_impl": len(reqs) - len(bad),
         "input_distribution": {"projects": len(projects), "routes_files": len(meta), "served_projects": len(chosen),
                                "requests_x_engines": len(reqs), "per_type_location": dist},
         "translation_failures": len(failing), "value_failures": len(bad), "handler_model": hstats,
+        "slice_requests_x_engines": len(sreqs), "slice_failures": len(sbad),
+        "slice_distinct": len(set((prm["type"], prm["pointer"], tuple(vals)) for (k, cn, mn, e, pi, prm, vals) in smeta)),
+        "body_requests_x_engines": len(breqs), "body_failures": nbody,
     })
     res.assumptions += ["floats (strconv.ParseFloat) and go-playground validator tags other than `required` are not modelled: "
                         "parameters carrying another rule are only required not to be invoked with a wrong value",
